@@ -155,6 +155,28 @@ theorem name_injective (p p' : Bool) (a b a' b' : Nat)
   injection h1 with e1 e2 e3 _
   exact ⟨e3.symm, e1.symm, e2.symm⟩
 
+/-- **A later Save does not disturb an earlier one** (the squasher keeps the write of a merged snapshot pending while
+it saves the next): two Saves of the same full store at different boundaries, written in any order — a `Save` freezes its
+content — leave two objects that load back to the state of their own Save. -/
+theorem two_saves_full (fs : Files) (init e1 e2 : Nat) (kv1 kv2 : KV)
+    (hi : init < 2 ^ 63) (h1 : e1 < 2 ^ 63) (h2 : e2 < 2 ^ 63) (hne : e1 ≠ e2)
+    (hnd1 : (kv1.map (·.1)).Nodup) (hlen1 : (vtEncStoreData kv1 []).length < two63)
+    (hnd2 : (kv2.map (·.1)).Nodup) (hlen2 : (vtEncStoreData kv2 []).length < two63) :
+    ∃ fs1 fs2, saveFull fs init e1 kv1 = .ok (fullName init e1, fs1) ∧
+      saveFull fs1 init e2 kv2 = .ok (fullName init e2, fs2) ∧
+      loadFull fs2 (fullName init e1) = .ok ⟨kv1, [], kvSize kv1⟩ ∧
+      loadFull fs2 (fullName init e2) = .ok ⟨kv2, [], kvSize kv2⟩ := by
+  obtain ⟨fs1, hs1, _, hl1⟩ := load_save_full fs init e1 kv1 hnd1 hlen1
+  obtain ⟨fs2, hs2, _, hl2⟩ := load_save_full fs1 init e2 kv2 hnd2 hlen2
+  refine ⟨fs1, fs2, hs1, hs2, ?_, hl2⟩
+  have hname : fullName init e1 ≠ fullName init e2 := by
+    intro h
+    have := name_injective false false init e1 init e2 hi h1 hi h2 (by simpa [snapshotName] using h)
+    exact hne this.2.2
+  have hkeep := save_preserves_others fs1 init e2 kv2 [] (fullName init e1) fs2 (fullName init e2) (Or.inl hs2) hname
+  simp only [loadFull, hkeep]
+  simpa only [loadFull] using hl1
+
 /-- **`%010d` preserves order below 10^10**: the Go string order (`nameLe`) of the padded numbers is the numeric
 order. -/
 theorem pad10_order {a b : Nat} (ha : a < 10 ^ 10) (hb : b < 10 ^ 10) :
